@@ -892,10 +892,17 @@ func planC06(prop string, seed uint64, tier string, idx int) *Plan {
 	if overDir {
 		g.p.Profile = "gc exactness: a directory store fills the directory, a memory store over it goes on"
 	}
+	foreign := idx%3 == 0 && k.Store == "dir" && !overDir && g.r.chance(40)
+	if foreign {
+		g.p.Profile += " + a foreign index entry with a malformed digest"
+	}
 	for i := 0; i < n; i++ {
 		repo := g.r.intn(g.nrepos())
 		if overDir && i == n/3 {
 			g.add(Op{K: "restart", S: "memdir"})
+		}
+		if foreign && (i == n/2 || i == n-2) {
+			g.add(Op{K: "badentry", Repo: repo})
 		}
 		switch g.r.intn(12) {
 		case 11:
